@@ -78,6 +78,31 @@ PROPS = {
               "every forwarding Push impl is proved against the same contract as the canonical form with an equal abstract value (same index, same stored bytes, same reads)."),
 }
 
+BOUNDED_TRUSTED = [
+    "rustc's semantics of the native build (debug and release profiles) for the enumeration; Kani 0.68 / CBMC 6.11 for the symbolic harnesses",
+    "the harness bodies in /verif/kani/src (oracles written from the property statements)",
+]
+
+PROPS.update({
+    "C06": _p("model_checking", [], "bounded-exhaustive native driver over frequency profiles x item shapes x merge generations; BitIterator/Decoder/Encoder are exercised through the public API only.",
+              trusted=BOUNDED_TRUSTED, dropped=["HuffmanContainer is built on BTreeMap/BinaryHeap, which neither Verus (no spec) nor Kani (intractable) can execute; no function of it is under a deductive contract"]),
+    "C07": _p("model_checking", [], "bounded-exhaustive native driver over training sets x probe strings x merge generations x clear.",
+              trusted=BOUNDED_TRUSTED, dropped=["DictionaryCodec is built on BTreeMap and a heavy-hitter summary; no function of it is under a deductive contract"]),
+    "C09": _p("model_checking", [], "twin harnesses (clone / clone_from, then divergence) over 12 compositions + FlatStack, and two program-text obligations (field completeness, no shared-state primitives).",
+              scans=["clone_field_complete", "no_shared_state"], trusted=BOUNDED_TRUSTED, dropped=["Clone on type parameters has no usable Verus specification"]),
+    "C14": _p("model_checking", [], "IntoOwned laws on read items of slice / columns / option / result / nested-slice regions and Huffman Wrapped items, both representations, five prior clone_onto targets.",
+              trusted=BOUNDED_TRUSTED, dropped=["IntoOwned bodies are iterator adapters / std ToOwned calls outside the Verus dialect"]),
+    "C15": _p("model_checking", [], "==, partial_cmp, cmp of read items against the owned vectors for all triples of short vectors in every representation; Wrapped raw versus encoded.",
+              trusted=BOUNDED_TRUSTED, dropped=["ReadSlice comparisons delegate to std's iterator comparison, which Verus cannot read"]),
+    "C17": _p("model_checking", [], "clause 1 only: after reserve_items / reserve_regions / merge_regions / merge_capacity, pushing exactly the announced contents leaves every capacity reported by heap_size unchanged.",
+              trusted=BOUNDED_TRUSTED, dropped=["allocation counts (clause 2, O(log n) allocator calls) are whole-history resource properties of std::Vec's growth policy: no contract here can express them"]),
+    "C18": _p("model_checking", [], "heap_size accounting over 12 compositions and the index containers with a recording callback, plus a program-text obligation that every storage field is forwarded.",
+              scans=["heap_size_forwards_all"], trusted=BOUNDED_TRUSTED, dropped=["the call history of an FnMut callback is not observable in a Verus postcondition"]),
+})
+
+for _pid in ("C13",):
+    PROPS[_pid]["kani_quick"] = ["slice_get_oob", "slice_get_owned_oob"]
+
 # obligation prefix -> native counterexample harness (vk crate)
 CEX = {
     "index.Stride::push#": "stride_push_contract",
